@@ -53,7 +53,7 @@ def join(comps, seps):
 class C15(InputProp):
     id = "C15"
     rule = ("every member name over 6 components x {/,\\} separators x relative/absolute up to the length bound, as middle member of a "
-            "3-member archive, x 4 destination spellings through nuwiki.extractall (plus Adapt and extract_wiki on the short names); "
+            "3-member archive, x 4 destination spellings through nuwiki.extractall and, after a change of the working directory, the same two relative spellings again (plus Adapt and extract_wiki on the short names); "
             "distinct = distinct (resolved target, verdict) pairs")
     assumptions = ("POSIX path semantics (backslash is an ordinary character)", "no symlinks inside the destination")
     chunk = 400
@@ -79,6 +79,9 @@ class C15(InputProp):
         os.makedirs(os.path.join(self.deep, DST + "x"))       # sibling sharing the name prefix
         with open(os.path.join(self.deep, DST + "x", "keep"), "w") as f:
             f.write("sibling")
+        # a second working directory of the same depth: the same RELATIVE destination string means another directory there
+        self.other = os.path.join(root, "l1", "l2", "l3", "l4", "l5", "m6")
+        os.makedirs(self.other)
         os.makedirs(os.path.join(root, "abs"))
         os.makedirs(os.path.join(self.deep, "tmp"))
         with open(os.path.join(root, "l1", "a"), "w") as f:
@@ -175,6 +178,15 @@ class C15(InputProp):
                 zf = self.make_zip(names)
                 run_entry("extractall/" + label, lambda: self.nuwiki.extractall(zf, dst), self.dst, self.dst)
             self.clean([self.dst])
+            # history: the process changes its working directory and extracts to the SAME relative destination string again
+            os.chdir(self.other)
+            odst = os.path.join(self.other, DST)
+            for label, dst in (("rel@second-cwd", DST), ("rel-dot-slash@second-cwd", "./" + DST + "/")):
+                self.clean([odst, self.dst])
+                zf = self.make_zip(names)
+                run_entry("extractall/" + label, lambda: self.nuwiki.extractall(zf, dst), odst, odst)
+            self.clean([odst, self.dst])
+            os.chdir(self.deep)
             if len(comps) <= 3:
                 # entry points that choose their own temporary destination (placed inside the sandbox)
                 tmpbase = os.path.join(self.deep, "tmp")
